@@ -134,6 +134,34 @@ def check_class(ctx, cls_fq, spec):
     if not lock_ctors:
         raise AnalysisError('no assignment of %s.%s found in __init__' % (cls_fq, lock_field))
 
+    # --- (o) lock order: only the instance's own lock is ever taken ----------
+    # two per-instance locks have no global order: an operation that takes the lock of a second instance while holding its
+    # own (a == b in one thread, b == a in another) can deadlock, after which no operation on either instance completes
+    n_acq = 0
+    for c in prog.mro(ci):
+        if not hasattr(c, 'members'):
+            continue
+        for mm in c.members.values():
+            if not isinstance(mm, FuncInfo):
+                continue
+            for n in ast.walk(mm.node):
+                exprs = []
+                if isinstance(n, (ast.With, ast.AsyncWith)):
+                    exprs = [it.context_expr for it in n.items]
+                elif isinstance(n, ast.Call) and isinstance(n.func, ast.Attribute) and n.func.attr in ('acquire', '__enter__'):
+                    exprs = [n.func.value]
+                for e in exprs:
+                    if isinstance(e, ast.Attribute) and e.attr == lock_field:
+                        n_acq += 1
+                        own = isinstance(e.value, ast.Name) and e.value.id == 'self'
+                        if not own:
+                            ctx.ob('T6o', '%s.%s' % (mm.module.name, mm.qualname), 'only the instance\'s own lock is acquired (taking '
+                                   'another instance\'s lock too gives two locks with no global order: opposite operand orders in '
+                                   'two threads deadlock)', False, loc='%s:%d' % (mm.module.relpath, n.lineno),
+                                   detail='acquires `%s`' % ast.unparse(e))
+    ctx.ob('T6o', cls_fq, 'every lock acquisition in the class (%d) is of self.%s' % (n_acq, lock_field), True,
+           loc='%s:%d' % (ci.module.relpath, ci.node.lineno), nontrivial=n_acq > 0)
+
     # --- walk every public operation --------------------------------------
     model = LockModel(prog, spec)
     needs_reentrant = []
